@@ -162,6 +162,116 @@ def new_state(mod):
     return uniq
 
 
+
+LOSSY = {"round", "around", "round_", "rint", "floor", "ceil", "trunc", "int", "id", "len", "hash", "type"}
+LOSSY_ATTR = {"shape", "size", "ndim", "dtype", "seconds", "days", "year", "month", "day", "hour"}
+
+
+def _names(e):
+    return {n.id for n in ast.walk(e) if isinstance(n, ast.Name) and isinstance(n.ctx, ast.Load)}
+
+
+def _dep_closure(fn, start):
+    """names the expressions `start` depend on through the assignments of fn (flow-insensitive def-use closure)"""
+    deps = {}
+    for n in ast.walk(fn):
+        tg, src = [], None
+        if isinstance(n, ast.Assign):
+            tg, src = n.targets, n.value
+        elif isinstance(n, (ast.AugAssign, ast.AnnAssign)) and n.value is not None:
+            tg, src = [n.target], n.value
+        elif isinstance(n, (ast.For, ast.comprehension)):
+            tg, src = [n.target], n.iter
+        elif isinstance(n, ast.Call) and isinstance(n.func, ast.Attribute) and n.func.attr in MUTATING and isinstance(n.func.value, ast.Name):
+            deps.setdefault(n.func.value.id, set()).update(_names(n))
+            continue
+        if src is None:
+            continue
+        for t in tg:
+            base = t
+            while isinstance(base, (ast.Subscript, ast.Attribute, ast.Starred)):
+                base = base.value
+            for nm in ([base] if isinstance(base, ast.Name) else [x for x in ast.walk(t) if isinstance(x, ast.Name)]):
+                deps.setdefault(nm.id, set()).update(_names(src))
+    seen, todo = set(), list(start)
+    while todo:
+        x = todo.pop()
+        if x in seen:
+            continue
+        seen.add(x)
+        todo += list(deps.get(x, ()))
+    return seen
+
+
+def _mapping_like(fn, name):
+    for n in ast.walk(fn):
+        if isinstance(n, ast.Attribute) and isinstance(n.value, ast.Name) and n.value.id == name and n.attr in ("items", "keys", "values", "get", "setdefault"):
+            return True
+        if isinstance(n, ast.Call) and isinstance(n.func, ast.Attribute) and n.func.attr == "update" and any(isinstance(a, ast.Name) and a.id == name for a in n.args):
+            return True
+        if isinstance(n, ast.keyword) and n.arg is None and isinstance(n.value, ast.Name) and n.value.id == name:
+            return True
+        if isinstance(n, ast.Dict) and any(k is None and isinstance(v, ast.Name) and v.id == name for k, v in zip(n.keys, n.values)):
+            return True
+    return False
+
+
+def lossy_memo_keys(tree, names):
+    """[(store node, text)]: `CACHE[key] = value` into one of the new stores `names` (module-level names / self attributes) where the key is built
+    from an argument X through a function that forgets part of X (rounding, int(), id(), len(), .shape, iteration over a mapping = its keys only)
+    while the value is computed from X itself: two different X share one entry, the second caller gets the first caller's value."""
+    out = []
+    for fn in [n for n in ast.walk(tree) if isinstance(n, (ast.FunctionDef, ast.AsyncFunctionDef))]:
+        params = {a.arg for a in fn.args.args + fn.args.kwonlyargs + fn.args.posonlyargs}
+        for st in ast.walk(fn):
+            if not isinstance(st, ast.Assign):
+                continue
+            for t in st.targets:
+                if not isinstance(t, ast.Subscript):
+                    continue
+                b = t.value
+                store = b.id if isinstance(b, ast.Name) else (b.attr if isinstance(b, ast.Attribute) and isinstance(b.value, ast.Name) else None)
+                if store not in names:
+                    continue
+                key = t.slice
+                if isinstance(key, ast.Name):
+                    defs = [a.value for a in ast.walk(fn) if isinstance(a, ast.Assign) and any(isinstance(x, ast.Name) and x.id == key.id for x in a.targets)]
+                    if len(defs) != 1:
+                        continue
+                    key = defs[0]
+                forgot = []
+                for c in ast.walk(key):
+                    arg = None
+                    if isinstance(c, ast.Call):
+                        last = c.func.attr if isinstance(c.func, ast.Attribute) else (c.func.id if isinstance(c.func, ast.Name) else None)
+                        if last in LOSSY and c.args:
+                            arg = c.args[0]
+                            how = "%s()" % last
+                        elif last in ("sorted", "tuple", "list", "set", "frozenset") and len(c.args) == 1 and isinstance(c.args[0], ast.Name) \
+                                and _mapping_like(fn, c.args[0].id):
+                            arg = c.args[0]
+                            how = "%s() of a mapping (its keys only)" % last
+                    elif isinstance(c, ast.Attribute) and c.attr in LOSSY_ATTR and isinstance(c.value, ast.Name):
+                        arg = c.value
+                        how = ".%s" % c.attr
+                    if arg is None:
+                        continue
+                    for x in _names(arg) & params:
+                        # X also enters the key whole (`(x.shape, x.tobytes())`, `(taus, round(taus))`): nothing is forgotten
+                        whole = [n for n in ast.walk(key) if isinstance(n, ast.Name) and n.id == x
+                                 and not any(n in set(ast.walk(c2)) for c2 in ast.walk(key) if c2 is c)]
+                        if not whole:
+                            forgot.append((x, how))
+                if not forgot:
+                    continue
+                vdeps = _dep_closure(fn, _names(st.value))
+                for x, how in forgot:
+                    if x in vdeps:
+                        out.append((st, "%s[...] is keyed by %s of the argument `%s` while the stored value is computed from `%s` itself (%s): "
+                                        "two different `%s` share one entry" % (store, how, x, x, fn.name, x)))
+    return out
+
+
 def rule_state(ctx, rule):
     """run after the other rules of a property: every module they consulted"""
     from .core import AnalysisError
@@ -173,6 +283,35 @@ def rule_state(ctx, rule):
             continue
         for ln, d in new_state(ctx.repo.mod(rel)):
             found.append("%s:%s %s" % (rel, ln or "", d))
+    # a new cache whose key forgets part of what the value is computed from is decided, not just refused
+    import re as _re
+    class _F:
+        def __init__(self, rel):
+            self.module = type("M", (), {"rel": rel})()
+        def where(self):
+            return self.module.rel
+    decided = 0
+    for c in ctx.repo.consulted():
+        rel = c["path"]
+        if not rel.startswith("typhon/"):
+            continue
+        mod = ctx.repo.mod(rel)
+        names = set()
+        for ln, d in new_state(mod):
+            m_ = _re.search(r"module-level (\w+) is written|new attribute \w+\.(\w+) is assigned", d)
+            if m_:
+                names.add(m_.group(1) or m_.group(2))
+        base = known().get(rel)
+        if base is not None:
+            now = facts_of(mod.tree)
+            for cls, attrs in now["attrs"].items():
+                names |= set(attrs) - set(base["attrs"].get(cls, []))
+        if not names:
+            continue
+        for st, text in lossy_memo_keys(mod.tree, names):
+            decided += 1
+            ctx.ob("state.memo_key", False, text, "the key of a cache determines the cached value (everything the value is computed from enters the key whole)",
+                   node=st, func=_F(rel), witness={"first call": "X1", "second call": "X2 != X1 with the same key", "answer": "the value for X1"})
     ctx.count("modules_scanned_for_new_state", len(ctx.repo.consulted()))
     ctx.ob("state", True, "modules scanned: %d; new state: %s" % (len(ctx.repo.consulted()), found or "none"), "none, or no verdict", node=None, func=None) \
         if not found else None
